@@ -271,6 +271,24 @@ impl C13 {
             };
             let mixed = p.info.asset_decimals.get(i) != p.info.asset_decimals.get(j);
             let abs = hash_of(&("ss", pool, i, j, mag(off), accepted, max_slip.map(|d| d.atomics().u128())));
+            // whatever "pool price" means, the price impact of a trade is not negative: a trade
+            // whose fees alone exceed the tolerance is over the limit (each fee is floored, hence
+            // the allowance of one unit per fee)
+            if accepted && net > 0 {
+                let f = &p.info.pool_fees;
+                let shares: Vec<u128> = [f.protocol_fee.share, f.swap_fee.share, f.burn_fee.share].iter().chain(f.extra_fees.iter().map(|e| &e.share)).map(|d| d.atomics().u128()).collect();
+                let total = Q::dec(shares.iter().sum::<u128>());
+                if total.lt(&Q::int(1)) {
+                    let gross = Q::int(net).div(&Q::int(1).sub(&total));
+                    let allowance = Q::int(shares.len() as u128 + 1).div(&gross);
+                    let fee_part = total.sub(&allowance);
+                    if fee_part.gt(&tol.add(&eps18())) {
+                        rep.failed("swap_limit_ss", None, format!("pool {pool}: executed under a tolerance of {:.6} although the pool's fees alone take {:.6} of the proceeds", tol.to_f64(), total.to_f64()),
+                            wit(json!({"fee_share": total.to_f64(), "tolerance": tol.to_f64()})));
+                        return;
+                    }
+                }
+            }
             // flagged only when the decision contradicts both readings of "pool price"
             let j_peg = judge(accepted, rejected_for_it, &peg, &tol, &delta, "loss vs peg");
             let j_mar = if accepted {
